@@ -201,7 +201,7 @@ PROPS["C03"] = {
     "props": "Failsafe.Props.C03",
     "ties": ["Failsafe.Tie.Breaker"],
     "kernels": ["closed_check", "halfopen_check", "open_try", "open_remaining", "halfopen_try", "closed_capacity", "halfopen_capacity",
-                "ring_set_next", "counting_failure_rate", "counting_success_rate"],
+                "ring_set_next", "counting_failure_rate", "counting_success_rate", "timed_execution_count", "timed_failure_count", "timed_success_count", "timed_failure_rate", "timed_success_rate", "counting_execution_count", "counting_failure_count", "counting_success_count"],
     "required_theorems": [
         "Failsafe.Props.C03.ring_refines_lastN", "Failsafe.Props.C03.ring_counts_sum", "Failsafe.Props.C03.buckets_refine_window",
         "Failsafe.Props.C03.closed_opens_iff", "Failsafe.Props.C03.closedShouldOpen_iff", "Failsafe.Props.C03.closed_count_opens_iff",
